@@ -1,15 +1,189 @@
 import PqVerif.Lemmas.Comb
+import Mathlib.Data.List.Chain
+import Mathlib.Data.List.Iterate
 
 /-!
 The separator-successor loop of `combinatorics.partitions` (model: `Pq.Comb.partitions`)
 produces exactly the recursive anti-lexicographic enumeration `parts`.
+
+Route: `sepsList P m p` lists, lexicographically, the strictly increasing separator
+suffixes of length `m` with values in `[p, P)`.  (1) its rows under `rowOfSeps` are the
+reversed `parts`; (2) consecutive entries (behind any fixed prefix) are related by
+`nextSeps`, so it is the orbit `iterate nextSeps` of `range (boxes-1)`; (3) `partitionsGen`
+is the row map of that orbit.
 -/
 namespace Pq.Comb
 open List
 
+/-- separator suffixes: `m` strictly increasing values in `[p, P)`, in lexicographic order -/
+def sepsList (P : Nat) : Nat → Nat → List (List Nat)
+  | 0, _ => [[]]
+  | m+1, p => (List.range' p (P - p - m)).flatMap (fun k => (sepsList P m (k+1)).map (k :: ·))
+
+theorem partitionsGen_eq_iterate (P b : Nat) : ∀ fuel seps,
+    partitionsGen P b fuel seps = (List.iterate (nextSeps P b) seps fuel).map (rowOfSeps P 0)
+  | 0, _ => rfl
+  | f+1, s => by simp [partitionsGen, List.iterate, partitionsGen_eq_iterate P b f]
+
+theorem eq_iterate_of_isChain {α} (f : α → α) : ∀ (l : List α) (a : α),
+    List.IsChain (fun x y => f x = y) (a :: l) → a :: l = List.iterate f a (l.length + 1)
+  | [], a, _ => rfl
+  | b :: l, a, h => by
+    rw [List.isChain_cons_cons] at h
+    obtain ⟨hab, h⟩ := h
+    subst hab
+    show a :: f a :: l = a :: List.iterate f (f a) (l.length + 1)
+    rw [← eq_iterate_of_isChain f l (f a) h]
+
+theorem sepsList_succ_nil (P m p : Nat) (h : P ≤ p + m) : sepsList P (m+1) p = [] := by
+  have : P - p - m = 0 := by omega
+  simp [sepsList, this]
+
+theorem sepsList_succ_cons (P m p : Nat) (h : p + m + 1 ≤ P) :
+    sepsList P (m+1) p = (sepsList P m (p+1)).map (p :: ·) ++ sepsList P (m+1) (p+1) := by
+  have e1 : P - p - m = (P - (p+1) - m) + 1 := by omega
+  rw [sepsList, sepsList, e1, List.range'_succ, List.flatMap_cons]
+
+theorem map_rowOfSeps_sepsList (P : Nat) : ∀ m p, p + m ≤ P →
+    (sepsList P m p).map (rowOfSeps P p) = (parts (m+1) (P - p - m)).reverse
+  | 0, p, _ => by simp [sepsList, rowOfSeps, parts_one]
+  | m+1, p, h => by
+    have hN : P - p - m = (P - p - (m+1)) + 1 := by omega
+    generalize hNdef : P - p - (m+1) = N at hN
+    rw [parts, List.reverse_flatMap, List.reverse_reverse, sepsList, hN, List.map_flatMap,
+      List.range'_eq_map_range, List.flatMap_map]
+    apply List.flatMap_congr
+    intro j hj
+    have hj' : j < N + 1 := List.mem_range.1 hj
+    have ih := map_rowOfSeps_sepsList P m (p + j + 1) (by omega)
+    have e : P - (p + j + 1) - m = N - j := by omega
+    rw [e] at ih
+    simp only [Function.comp, List.map_map, ← List.map_reverse, ← ih]
+    apply List.map_congr_left
+    intro s _
+    simp [rowOfSeps]
+
+theorem head?_sepsList (P : Nat) : ∀ m p, p + m ≤ P →
+    (sepsList P m p).head? = some (List.range' p m)
+  | 0, p, _ => rfl
+  | m+1, p, h => by
+    rw [sepsList_succ_cons P m p (by omega), List.head?_append, List.head?_map,
+      head?_sepsList P m (p+1) (by omega)]
+    simp [List.range'_succ]
+
+theorem getLast?_sepsList (P : Nat) : ∀ m c p, p + m + c = P →
+    (sepsList P m p).getLast? = some (List.range' (P - m) m)
+  | 0, _, p, _ => rfl
+  | m+1, 0, p, h => by
+    rw [sepsList_succ_cons P m p (by omega), sepsList_succ_nil P m (p+1) (by omega),
+      List.append_nil, List.getLast?_map, getLast?_sepsList P m 0 (p+1) (by omega)]
+    have e1 : P - (m+1) = p := by omega
+    have e2 : P - m = p + 1 := by omega
+    simp [List.range'_succ, e1, e2]
+  | m+1, c+1, p, h => by
+    rw [sepsList_succ_cons P m p (by omega), List.getLast?_append,
+      getLast?_sepsList P (m+1) c (p+1) (by omega)]
+    rfl
+
+theorem scanSep_max (P d : Nat) (pre : List Nat) (k m a : Nat) (ha : pre.length = a)
+    (hd : a + 1 + m = d) (hk : k + 1 + m < P) :
+    ∀ j, j ≤ m → scanSep P (d+1) (pre ++ k :: List.range' (P-m) m) (a + j) = some a
+  | 0, _ => by
+    have hg : (pre ++ k :: List.range' (P-m) m).getD a 0 = k := by
+      simp [List.getD_eq_getElem?_getD, ← ha]
+    cases a with
+    | zero =>
+      have hne : (k == P - (d + 1 - 1)) = false := by
+        rw [beq_eq_false_iff_ne]; omega
+      simp only [scanSep, hg]
+      rw [hne]; rfl
+    | succ a =>
+      have hne : (k == P - (d + 1 - 1 - (a + 1))) = false := by
+        rw [beq_eq_false_iff_ne]; omega
+      simp only [scanSep, hg]
+      rw [hne]; rfl
+  | j+1, hj => by
+    have hg : (pre ++ k :: List.range' (P-m) m).getD (a + j + 1) 0 = P - m + j := by
+      have hjm : j < (List.range' (P-m) m).length := by simp; omega
+      simp [List.getD_eq_getElem?_getD, List.getElem?_append_right, ← ha, Nat.add_assoc,
+        List.getElem?_eq_getElem hjm]
+    have heq : (P - m + j == P - (d + 1 - 1 - (a + j + 1))) = true := by
+      rw [beq_iff_eq]; omega
+    show scanSep P (d+1) _ ((a + j) + 1) = some a
+    simp only [scanSep, hg]
+    rw [heq]
+    exact scanSep_max P d pre k m a ha hd hk j (by omega)
+
+theorem bumpSeps_append (pre : List Nat) (k : Nat) (rest : List Nat) :
+    bumpSeps (pre ++ k :: rest) pre.length = pre ++ List.range' (k+1) (rest.length + 1) := by
+  have e : (pre ++ k :: rest).length - pre.length = rest.length + 1 := by simp
+  have hg : (pre ++ k :: rest).getD pre.length 0 = k := by
+    simp [List.getD_eq_getElem?_getD]
+  unfold bumpSeps
+  simp only [e, hg, List.take_left', List.range'_eq_map_range]
+
+theorem nextSeps_max (P d : Nat) (pre : List Nat) (k m : Nat)
+    (hd : pre.length + 1 + m = d) (hk : k + 1 + m < P) :
+    nextSeps P (d+1) (pre ++ k :: List.range' (P-m) m) = pre ++ List.range' (k+1) (m+1) := by
+  have hs := scanSep_max P d pre k m pre.length rfl hd hk m (le_refl _)
+  have e : d + 1 - 2 = pre.length + m := by omega
+  unfold nextSeps
+  rw [e, hs]
+  simpa using bumpSeps_append pre k (List.range' (P-m) m)
+
+theorem isChain_sepsList (P d : Nat) : ∀ m c p pre, pre.length + m = d → p + m + c = P →
+    List.IsChain (fun x y => nextSeps P (d+1) x = y) ((sepsList P m p).map (pre ++ ·))
+  | 0, _, p, pre, _, _ => by simp [sepsList]
+  | m+1, c, p, pre, hd, hc => by
+    have hblock : List.IsChain (fun x y => nextSeps P (d+1) x = y)
+        (((sepsList P m (p+1)).map (p :: ·)).map (pre ++ ·)) := by
+      have h := isChain_sepsList P d m c (p+1) (pre ++ [p]) (by simp; omega) (by omega)
+      have e : ((fun x => pre ++ x) ∘ fun x => p :: x) = (fun x => (pre ++ [p]) ++ x) := by
+        funext x; simp
+      rw [List.map_map, e]; exact h
+    cases c with
+    | zero =>
+      rw [sepsList_succ_cons P m p (by omega), sepsList_succ_nil P m (p+1) (by omega),
+        List.append_nil]
+      exact hblock
+    | succ c =>
+      rw [sepsList_succ_cons P m p (by omega), List.map_append]
+      refine List.IsChain.append hblock (isChain_sepsList P d (m+1) c (p+1) pre hd (by omega)) ?_
+      intro x hx y hy
+      rw [List.getLast?_map, List.getLast?_map, getLast?_sepsList P m (c+1) (p+1) (by omega)] at hx
+      rw [List.head?_map, head?_sepsList P (m+1) (p+1) (by omega)] at hy
+      simp only [Option.map_some, Option.mem_def, Option.some.injEq] at hx hy
+      subst hx hy
+      exact nextSeps_max P d pre p m (by omega) (by omega)
+
 /-- the loop of `combinatorics.partitions` enumerates the weak compositions of `n` into
 `d+1` parts in anti-lexicographic order -/
 theorem partitions_eq_parts (d n : Nat) : partitions (d + 1) n = parts (d + 1) n := by
-  sorry
+  have hrows := map_rowOfSeps_sepsList (n+d) d 0 (by omega)
+  have e0 : n + d - 0 - d = n := by omega
+  rw [e0] at hrows
+  have hlen : (sepsList (n+d) d 0).length = Nat.choose (n+d) d := by
+    have h1 := congrArg List.length hrows
+    have h2 := congrArg List.length (map_index_parts d n)
+    simp only [List.length_map, List.length_reverse, List.length_range'] at h1 h2
+    rw [h1, h2]
+  have hchain := isChain_sepsList (n+d) d d n 0 [] (by simp) (by omega)
+  have hhead := head?_sepsList (n+d) d 0 (by omega)
+  simp only [List.nil_append, List.map_id'] at hchain
+  obtain ⟨l, hl⟩ : ∃ l, sepsList (n+d) d 0 = List.range d :: l := by
+    cases hs : sepsList (n+d) d 0 with
+    | nil => simp [hs] at hhead
+    | cons a l =>
+      rw [hs] at hhead
+      simp only [List.head?_cons, Option.some.injEq] at hhead
+      exact ⟨l, by rw [hhead, List.range_eq_range']⟩
+  rw [hl] at hchain
+  have hit := eq_iterate_of_isChain _ l _ hchain
+  have hl' : l.length + 1 = Nat.choose (n+d) d := by rw [← hlen, hl]; rfl
+  rw [hl', ← hl] at hit
+  have eP : n + (d + 1) - 1 = n + d := by omega
+  unfold partitions
+  simp only [Nat.add_one_ne_zero, if_false, Nat.add_sub_cancel, comb_eq_choose, eP]
+  rw [partitionsGen_eq_iterate, ← hit, hrows, List.reverse_reverse]
 
 end Pq.Comb
